@@ -307,7 +307,6 @@ func (z ZSet) Sample(n int) []int64 {
 	return out
 }
 
-
 // Intersect is exact up to the modulus cap of residue().
 func (z ZSet) Intersect(o ZSet) ZSet {
 	var out ZSet
